@@ -351,7 +351,7 @@ func uniqFilter(a []any) (result []any) {
 			seenMap[item] = true
 			return false
 		}
-		if k := reflect.TypeOf(item).Kind(); k < reflect.Array || k == reflect.Ptr || k == reflect.UnsafePointer {
+		if k := reflect.TypeOf(item).Kind(); k < reflect.Array || k == reflect.String || k == reflect.Ptr || k == reflect.UnsafePointer {
 			if seenMap[item] {
 				return true
 			}
